@@ -14,10 +14,10 @@ corr   (model vs implementation)
   eval_qubit    SPEC validation: `Sem.evalQubit` == the real resolve_qubit whenever the library resolves (a chain that
                 leaves its source is rejected by the specification only: counted, see distribution)
 oracle (properties on the real code alone)
-  no_constant_left, meaning_under_overrides (vs the program text with the values written into its let lines),
+  qubit_names, no_constant_left, meaning_under_overrides (vs the program text with the values written into its let lines),
   meaning_vs_reference (vs pass1_diff's reference interpreter on the original objects), frame_preserved, revalidated,
   idempotent  (C05)
-  fill_in_map_same_meaning_and_fundamental, consumers_agree, alias_same_as_direct, slice_equation  (C06)
+  fill_in_map_same_meaning_and_fundamental, fill_in_map_no_name_capture, consumers_agree, alias_same_as_direct, slice_equation  (C06)
   only_jaqal_errors (any other exception class escaping fill_in_let / fill_in_map / resolve_qubit on a front-end built circuit)
 
 Exit status 0 iff no disagreement and no oracle failure.
@@ -145,7 +145,9 @@ class Gen:
             elif kind < 0.32:
                 i = r.randrange(len(sl)) if r.random() >= self.wild else r.choice([len(sl), len(sl) + 1, 9])
                 ls = self.int_lets(lambda x: x == i)
-                it = r.choice(ls) if ls and r.random() < 0.4 else str(i)
+                it = r.choice(ls) if ls and r.random() < 0.55 else str(i)
+                if it in self.lets:
+                    self.features["named single-qubit alias with a let index"] += 1
                 out.append(f"map {name} {src}[{it}]")
                 if i < len(sl):
                     self.qalias[name] = sl[i]
@@ -220,7 +222,8 @@ class Gen:
             return f"{r.choice(rps)}[{self.index(params, 2)}]"
         cands = [(n, len(l)) for n, l in self.regs.items() if n not in shadow and l]
         qa = [q for q in self.qalias if q not in shadow]
-        if qa and r.random() < 0.2:
+        if qa and r.random() < 0.3:
+            self.features["single-qubit alias as a gate argument" + (" (in a macro)" if params else "")] += 1
             return r.choice(qa)
         if not cands:
             return r.choice(qps) if qps else "r[0]"
@@ -324,6 +327,8 @@ class Gen:
     def macro(self, idx):
         r = self.rng
         names = r.sample(PARAM_POOL, r.randrange(0, 4))
+        if names and "r" not in names and r.random() < 0.25:
+            names[0] = "r"                                  # a parameter named like the fundamental register
         params = [(p, r.choice(["q", "q", "i", "i", "reg"])) for p in names]
         if any(p in self.lets for p in names):
             self.features["parameter shadows a let"] += 1
@@ -769,6 +774,23 @@ def oracles(case, res, out, do_emu):
         left = [(w, n) for w, v in walk_vals(f) for n in constants_in(v)]
         rec("no_constant_left", not left, f"constants left: {left[:4]}")
         rec("frame_preserved", frame(d1) == frame(d0), "frame changed")
+        # a declared single-qubit alias used as a gate argument keeps its name; an anonymous r[n] is renamed r[<value>]
+        q0s = [q for w, q, m in qubits_of(c) if w != "registers"]
+        q1s = [q for w, q, m in qubits_of(f) if w != "registers"]
+        badn = []
+        if len(q0s) == len(q1s):
+            for a, b in zip(q0s, q1s):
+                if a.name in c.registers:
+                    if b.name != a.name:
+                        badn.append((a.name, b.name))
+                elif isinstance(a.alias_index, Constant):
+                    if b.name != f"{a.alias_from.name}[{b.alias_index}]":
+                        badn.append((a.name, b.name))
+                elif b.name != a.name:
+                    badn.append((a.name, b.name))
+        else:
+            badn.append("different number of qubit arguments")
+        rec("qubit_names", not badn, f"names: {badn[:4]}")
         # meaning under the overriding values == meaning of the text with the values written into the let lines
         t2 = rewrite_lets(case["text"], [p for p in case["overrides"] if p[0] in dict((k, 1) for k in LETS)])
         m1 = outcome(lambda: impl_meaning(f))
@@ -825,6 +847,10 @@ def oracles(case, res, out, do_emu):
             real_resolve(a, {}) == {"ok": [b.alias_from.name, str(b.alias_index)]} for a, b in zip(q0, q1))
         if "ok" in m0 or "ok" in m1:
             same = m0 == m1
+        # no register name is written inside a macro one of whose parameters has that name
+        cap = [(m.name, q.name) for w, q, m in qubits_of(g)
+               if m is not None and isinstance(q.alias_from, Register) and q.alias_from.name in [p.name for p in m.parameters]]
+        rec("fill_in_map_no_name_capture", not cap, f"captured: {cap[:3]}")
         rec("fill_in_map_same_meaning_and_fundamental", same and not nonfund and pos,
             f"meaning {json.dumps(m0)[:300]} / {json.dumps(m1)[:300]}; not fundamental: {nonfund[:3]}; positions agree: {pos}")
     # C06: the defining equation on the real objects, for every alias register of the circuit
